@@ -103,7 +103,7 @@ pub fn check_threads(c: &ThreadCase) -> Verdict {
     let maxout = built.blocks.iter().flat_map(|(_, b)| b.txs.iter().map(|t| t.outputs.len())).max().unwrap_or(0);
     let classes = vec![format!("max-txs={}", match maxtx { 0..=63 => "<64", 64..=199 => "64-199", _ => ">=200" }), format!("max-outputs={}", match maxout { 0..=15 => "<16", 16..=255 => "16-255", _ => ">=256" }), format!("second={}", c.second.cli())];
     let sample = serde_json::json!({"coin": built.coin.cli(), "blocks": built.blocks.len(), "max_txs_per_block": maxtx, "max_outputs_per_tx": maxout, "settings": "1,2,3,8,16,64,64-pinned", "callbacks": ["csvdump", c.second.cli()]});
-    Verdict::Pass(Pass { nontrivial: maxtx >= 64, key: key_of(c), classes, known: vec![], sub_evals: runs, sample: Some(sample) })
+    Verdict::Pass(Pass { nontrivial: maxtx >= 64, key: key_of(c), classes, known: vec![], sub_evals: runs, sample: Some(sample), extra_keys: vec![] })
 }
 
 fn digest_dir(dir: &std::path::Path) -> BTreeMap<String, String> {
@@ -178,7 +178,7 @@ pub fn check_reruns(c: &RerunCase) -> Verdict {
     }
     let classes = vec![format!("runs={}", c.runs.len()), format!("xor={}", c.xor), format!("table-backed-index={}", c.compact_index)];
     let sample = serde_json::json!({"coin": built.coin.cli(), "tip": tip, "runs": c.runs.iter().map(|(cb, e)| format!("{}{}", cb.cli(), if e.is_some() { " -e" } else { "" })).collect::<Vec<_>>(), "xor": c.xor});
-    Verdict::Pass(Pass { nontrivial: c.runs.len() >= 3, key: key_of(c), classes, known: vec![], sub_evals: n, sample: Some(sample) })
+    Verdict::Pass(Pass { nontrivial: c.runs.len() >= 3, key: key_of(c), classes, known: vec![], sub_evals: n, sample: Some(sample), extra_keys: vec![] })
 }
 
 fn run(eng: &Engine, a: &Args) {
